@@ -45,12 +45,22 @@ PROPS = {
              'cases': {'quick': 8000, 'thorough': 300000}, 'shards': {'quick': 1, 'thorough': 2}},
         ],
     },
+    'C05': {
+        'rule': 'one of 31 (operation, differentiated argument) pairs x generated elements / tangents / points; logarithm-type operations restricted to relative rotation <= pi-1e-6; non-trivial: argument rotation != 0 and a linear component >= 1e-3',
+        'assumptions': ASSUME_ORACLE + ['derivative oracle: Richardson-extrapolated central differences of the reference model on the tangent space (h=1e-6 long double, h=1e-20 in 50 digits), self-estimated error <= 1e-8 or the case is counted inconclusive'],
+        'stages': [
+            {'src': 'C05.cpp', 'configs': D_GROUPS + ['SE2f', 'SE3f'] + BUNDLES,
+             'cases': {'quick': 2500, 'thorough': 60000}, 'shards': {'quick': 1, 'thorough': 2},
+             'case_scale': {'B_SE3_SO2_R3_d': 0.3, 'B_SGal3_SE2_SE23_SO3_R1_d': 0.08, 'SGal3d': 0.5}},
+        ],
+    },
     'C06': {
         'rule': 'tangent (theta up to pi-1e-6, strata of 1.3) x two elements x second tangent; non-trivial: theta != 0 and a linear component >= 1e-3',
         'assumptions': ASSUME_ORACLE,
         'stages': [
             {'src': 'C06.cpp', 'configs': D_GROUPS + ['SE2f', 'SE3f', 'SO3f'] + BUNDLES,
-             'cases': {'quick': 6000, 'thorough': 200000}, 'shards': {'quick': 1, 'thorough': 2}},
+             'cases': {'quick': 6000, 'thorough': 200000}, 'shards': {'quick': 1, 'thorough': 2},
+             'case_scale': {'B_SGal3_SE2_SE23_SO3_R1_d': 0.15}},
         ],
     },
 }
